@@ -301,7 +301,7 @@ READ_ONLY_CALLS = ('len', 'isinstance', 'bool', 'str', 'repr', 'sum', 'min', 'ma
 
 PROCESS_STATE_CALLS = {('sys', 'setrecursionlimit'), ('sys', 'settrace'), ('sys', 'setprofile'), ('sys', 'setswitchinterval'), ('locale', 'setlocale'),
                        ('os', 'chdir'), ('os', 'putenv'), ('os', 'umask'), ('random', 'seed'), ('random', 'setstate'), ('decimal', 'setcontext'),
-                       ('warnings', 'filterwarnings'), ('warnings', 'simplefilter'), ('signal', 'signal'), ('signal', 'alarm'), ('socket', 'setdefaulttimeout'),
+                       ('warnings', 'filterwarnings'), ('warnings', 'simplefilter'), ('warnings', 'warn'), ('warnings', 'warn_explicit'), ('signal', 'signal'), ('signal', 'alarm'), ('socket', 'setdefaulttimeout'),
                        ('gc', 'disable'), ('gc', 'enable'), ('gc', 'set_threshold'), ('time', 'tzset'), ('threading', 'setprofile'), ('threading', 'settrace'),
                        ('faulthandler', 'enable'), ('atexit', 'register')}
 
